@@ -158,6 +158,7 @@ static struct {
     pthread_barrier_t barrier;
     struct aws_logger logger;
     enum aws_date_format date_format;
+    time_t wall_start; /* wall clock before the first log call of the scenario */
 } T;
 
 static char *make_payload(int sender, int n, size_t plen, uint64_t seed) {
@@ -321,6 +322,40 @@ static bool check_line(const uint8_t *line, size_t len, size_t rec_idx, int *out
                       (int)T.date_format);
         return false;
     }
+    {
+        /* the stamp is labelled UTC ('Z' / 'GMT'): read as UTC it must be the time of the call, whatever TZ the process runs in */
+        struct tm tm;
+        memset(&tm, 0, sizeof(tm));
+        int Y = 0, Mo = 0, D = 0, h = 0, mi = 0, se = 0;
+        bool dec = false;
+        char mon[4] = {0};
+        if (T.date_format == AWS_DATE_FORMAT_ISO_8601_BASIC) {
+            dec = sscanf(p, "%4d%2d%2dT%2d%2d%2dZ", &Y, &Mo, &D, &h, &mi, &se) == 6;
+        } else if (T.date_format == AWS_DATE_FORMAT_RFC822) {
+            static const char *const MON[] = {"Jan", "Feb", "Mar", "Apr", "May", "Jun", "Jul", "Aug", "Sep", "Oct", "Nov", "Dec"};
+            dec = sscanf(p + 5, "%2d %3s %4d %2d:%2d:%2d", &D, mon, &Y, &h, &mi, &se) == 6;
+            for (int k = 0; dec && k < 12; ++k) {
+                if (!strcmp(mon, MON[k])) {
+                    Mo = k + 1;
+                }
+            }
+        } else {
+            dec = sscanf(p, "%4d-%2d-%2dT%2d:%2d:%2dZ", &Y, &Mo, &D, &h, &mi, &se) == 6;
+        }
+        tm.tm_year = Y - 1900;
+        tm.tm_mon = Mo - 1;
+        tm.tm_mday = D;
+        tm.tm_hour = h;
+        tm.tm_min = mi;
+        tm.tm_sec = se;
+        time_t stamp = dec && Mo ? timegm(&tm) : (time_t)-1;
+        time_t now = time(NULL);
+        if (stamp == (time_t)-1 || stamp < T.wall_start - 2 || stamp > now + 2) {
+            mon_violation("C14:line-format:timestamp-value",
+                          "record %zu: timestamp field '%.*s' read as UTC is %lld, the call was made between %lld and %lld (UTC seconds; process TZ='%s')", rec_idx,
+                          (int)tsl, p, (long long)stamp, (long long)T.wall_start, (long long)now, getenv("TZ") ? getenv("TZ") : "");
+        }
+    }
     p = q + 1;
     if (end - p < 2 || p[0] != ' ' || p[1] != '[') {
         goto bad;
@@ -386,6 +421,7 @@ bad:
 static void thr_case(void) {
     struct mon_rng *r = &mon_case_rng;
     memset(&T, 0, sizeof(T));
+    T.wall_start = time(NULL);
     bool background = mon_chance(r, 7, 10);
     T.nsenders = 1 + (int)mon_below(r, MAX_SENDERS);
     T.nphases = 1 + (int)mon_below(r, 3);
